@@ -16,6 +16,7 @@ import numpy as _np
 import z3
 
 from . import engine as _eng
+from . import cpoly as _cp
 from .engine import SxUnsupported, SxInconclusive
 
 ZERO = Fraction(0)
@@ -402,11 +403,11 @@ def _nonfinite(x) -> bool:
 
 class SVal:
     """A symbolic finite real or complex number N/D."""
-    __slots__ = ("nr", "ni", "dr", "di", "npy")
+    __slots__ = ("nr", "ni", "dr", "di", "npy", "cx")
     _sx_symbolic = True
     __array_priority__ = 1000
 
-    def __init__(self, nr, ni=ZERO, dr=ONE, di=ZERO, npy=False):
+    def __init__(self, nr, ni=ZERO, dr=ONE, di=ZERO, npy=False, cx=None):
         # fold a constant denominator into the numerator
         if isc(dr) and isc(di) and not (dr == 1 and di == 0):
             m = dr * dr + di * di
@@ -415,6 +416,9 @@ class SVal:
             dr, di = ONE, ZERO
         self.nr, self.ni, self.dr, self.di = nr, ni, dr, di
         self.npy = npy
+        if cx is None and isc(nr) and isc(ni) and isc(dr) and isc(di):
+            cx = _cp.const(nr, ni)
+        self.cx = cx
 
     # ---- construction
     @staticmethod
@@ -440,7 +444,7 @@ class SVal:
     def with_npy(self, npy=True) -> "SVal":
         if self.npy == npy:
             return self
-        return SVal(self.nr, self.ni, self.dr, self.di, npy)
+        return SVal(self.nr, self.ni, self.dr, self.di, npy, self.cx)
 
     # ---- shape
     def is_real(self) -> bool:
@@ -475,10 +479,23 @@ class SVal:
             return t
         return _eng.current().decide(t)
 
+    def _divisor_is_zero(self) -> bool:
+        """zero test for a divisor: forks, or -- under the engine policy 'assume' -- cuts the
+        division-by-zero case away (recorded by the harness as outside the claim)."""
+        t = self.zero_term()
+        if isinstance(t, bool):
+            return t
+        e = _eng.current()
+        if e.div_zero_policy == "assume":
+            e.axiom(z3.Not(t))
+            e.scratch["nonzero_cuts"] = e.scratch.get("nonzero_cuts", 0) + 1
+            return False
+        return e.decide(t)
+
     def reciprocal(self) -> Any:
-        if self._decide_zero():
+        if self._divisor_is_zero():
             return _div_by_zero(SVal(ONE, npy=self.npy), self.npy, complex_=not self.is_real())
-        return SVal(self.dr, self.di, self.nr, self.ni, self.npy)
+        return SVal(self.dr, self.di, self.nr, self.ni, self.npy, _cp.inv(self.cx))
 
     # ---- arithmetic
     def _coerce(self, o):
@@ -492,10 +509,10 @@ class SVal:
         npy = self.npy or b.npy
         if ceqs(self._D(), b._D()):
             n = cadd(self._N(), b._N())
-            return SVal(n[0], n[1], self.dr, self.di, npy)
+            return SVal(n[0], n[1], self.dr, self.di, npy, _cp.add(self.cx, b.cx))
         n = cadd(cmul(self._N(), b._D()), cmul(b._N(), self._D()))
         d = cmul(self._D(), b._D())
-        return SVal(n[0], n[1], d[0], d[1], npy)
+        return SVal(n[0], n[1], d[0], d[1], npy, _cp.add(self.cx, b.cx))
 
     def __radd__(self, o):
         b = self._coerce(o)
@@ -504,7 +521,7 @@ class SVal:
         return b.__add__(self)
 
     def __neg__(self):
-        return SVal(tneg(self.nr), tneg(self.ni), self.dr, self.di, self.npy)
+        return SVal(tneg(self.nr), tneg(self.ni), self.dr, self.di, self.npy, _cp.neg(self.cx))
 
     def __pos__(self):
         return self
@@ -527,7 +544,7 @@ class SVal:
             return _special(self, o, "mul", False)
         n = cmul(self._N(), b._N())
         d = cmul(self._D(), b._D())
-        return SVal(n[0], n[1], d[0], d[1], self.npy or b.npy)
+        return SVal(n[0], n[1], d[0], d[1], self.npy or b.npy, _cp.mul(self.cx, b.cx))
 
     def __rmul__(self, o):
         b = self._coerce(o)
@@ -540,11 +557,11 @@ class SVal:
         if b is None:
             return _special(self, o, "div", False)
         npy = self.npy or b.npy
-        if b._decide_zero():
+        if b._divisor_is_zero():
             return _div_by_zero(self, npy, complex_=not (self.is_real() and b.is_real()))
         n = cmul(self._N(), b._D())
         d = cmul(self._D(), b._N())
-        return SVal(n[0], n[1], d[0], d[1], npy)
+        return SVal(n[0], n[1], d[0], d[1], npy, _cp.mul(self.cx, _cp.inv(b.cx)))
 
     def __rtruediv__(self, o):
         b = self._coerce(o)
@@ -590,11 +607,20 @@ class SVal:
     # ---- comparisons
     def eq_term(self, b: "SVal"):
         """z3 Bool (or python bool) for self == b"""
+        if self is b:
+            return True
+        if self.cx is not None and b.cx is not None and not (self.is_const() and b.is_const()):
+            if _cp.equal(self.cx, b.cx):
+                return True
         if ceqs(self._D(), b._D()):
             l, r = self._N(), b._N()
         else:
             l, r = cmul(self._N(), b._D()), cmul(b._N(), self._D())
         dr, di = tsub(l[0], r[0]), tsub(l[1], r[1])
+        if not (isc(dr) and isc(di)):
+            from . import poly
+            if poly.is_identically_zero(dr) and poly.is_identically_zero(di):
+                return True
         return c_is_zero((dr, di))
 
     def __eq__(self, o):
@@ -708,12 +734,14 @@ class SVal:
 
 
 def sreal(name: str, register: bool = True, npy: bool = False) -> SVal:
-    return SVal(_eng.current().fresh_real(name, register), npy=npy)
+    t = _eng.current().fresh_real(name, register)
+    return SVal(t, npy=npy, cx=_cp.var(str(t)))
 
 
 def scomplex(name: str, register: bool = True, npy: bool = True) -> SVal:
     e = _eng.current()
-    return SVal(e.fresh_real(name + ".re", register), e.fresh_real(name + ".im", register), npy=npy)
+    re_ = e.fresh_real(name + ".re", register)
+    return SVal(re_, e.fresh_real(name + ".im", register), npy=npy, cx=_cp.var(str(re_)[:-3]))
 
 
 def is_symbolic(x) -> bool:
@@ -779,7 +807,7 @@ def pi_val() -> SVal:
     if p is None:
         t = z3.Real("pi")
         e.axiom(z3.And(t > z3.Q(314159, 100000), t < z3.Q(31416, 10000)))
-        p = SVal(t)
+        p = SVal(t, cx=_cp.var("pi"))
         e.scratch["pi"] = p
     return p
 
@@ -810,15 +838,19 @@ def uf(name: str, args: List[Any], real_result: bool = False, axioms=None) -> SV
             return res
         if t is False:
             continue
+        if _eng._ast_size(t, 300) >= 300:
+            # too big for a quick congruence query: treated as (possibly) different arguments.
+            # Sound: a fresh atom only loses the congruence fact, it never adds a false one.
+            continue
         if e.implied(t):
             return res
         pending.append((t, res))
     k = len(table)
     base = "%s@%d" % (name, k)
     if real_result:
-        res = SVal(z3.Real(base + ".re"), npy=True)
+        res = SVal(z3.Real(base + ".re"), npy=True, cx=_cp.var(base))
     else:
-        res = SVal(z3.Real(base + ".re"), z3.Real(base + ".im"), npy=True)
+        res = SVal(z3.Real(base + ".re"), z3.Real(base + ".im"), npy=True, cx=_cp.var(base))
     for t, old in pending:   # congruence for the not-provably-equal earlier applications
         e.axiom(z3.Implies(t, old.eq_term(res) if not isinstance(old.eq_term(res), bool) else z3.BoolVal(old.eq_term(res))))
     table.append((args, res))
@@ -838,7 +870,7 @@ def _nonzero_result(res: SVal, base: SVal):
         e.axiom(z3.Implies(z3.Not(bz), z3.Not(rz)))
 
 
-def s_pow(base, expo) -> Any:
+def s_pow(base, expo, _norewrite=False) -> Any:
     b, x = SVal.lift(base), SVal.lift(expo)
     if b is None or x is None:
         raise SxUnsupported("power with a non-finite operand")
@@ -847,6 +879,10 @@ def s_pow(base, expo) -> Any:
         n = int(x.nr)
         if n == 0:
             return SVal(ONE, npy=npy)
+        root = _root_of(b)
+        if root is not None and n % root[1] == 0 and abs(n) >= root[1]:
+            # (z**(1/q))**(q*m) == z**m for principal roots (sympy applies the same simplification)
+            return s_pow(root[0].with_npy(npy), n // root[1])
         r = b
         for _ in range(abs(n) - 1):
             r = r * b
@@ -854,8 +890,11 @@ def s_pow(base, expo) -> Any:
     if b.is_const() and x.is_const():
         return SVal.lift(complex(b.const()) ** complex(x.const()) if not (b.is_real() and x.is_real()) else float(b.nr) ** float(x.nr), npy=npy)
     # z**(-e) -> 1/z**e when the exponent is syntactically negative
-    if _syntactically_negative(x):
-        r = s_pow(b, -x)
+    if not _norewrite and _syntactically_negative(x):
+        nx = -x
+        if not isc(nx.nr):
+            nx = SVal(z3.simplify(nx.nr), nx.ni, nx.dr, nx.di, nx.npy)
+        r = s_pow(b, nx, _norewrite=True)
         return r.reciprocal() if isinstance(r, SVal) else 1 / r
     real_res = b.is_real() and x.is_real() and _eng.current().implied(b > 0)
 
@@ -863,6 +902,14 @@ def s_pow(base, expo) -> Any:
         _nonzero_result(res, bb)
         if real_res:
             _eng.current().axiom(res.nr > 0)
+        # (z ** (1/q)) ** q == z   (principal roots; sympy simplifies sqrt(z)**2 to z on its own)
+        if xx.is_const() and xx.is_real() and xx.nr.numerator == 1 and 2 <= xx.nr.denominator <= 4:
+            rq = res
+            for _ in range(xx.nr.denominator - 1):
+                rq = rq * res
+            tq = rq.eq_term(bb)
+            if not isinstance(tq, bool):
+                _eng.current().axiom(tq)
         # z ** 1 == z
         t = xx.eq_term(SVal(ONE))
         if t is not False:
@@ -872,20 +919,47 @@ def s_pow(base, expo) -> Any:
     return uf("pow", [b, x], real_result=real_res, axioms=ax).with_npy(npy)
 
 
+def _root_of(b: SVal):
+    """(z, q) if b is exactly the atom standing for z**(1/q)"""
+    if not (isc(b.dr) and b.dr == 1 and isc(b.di) and b.di == 0) or isc(b.nr):
+        return None
+    try:
+        if not z3.is_const(b.nr) or b.nr.decl().kind() != z3.Z3_OP_UNINTERPRETED:
+            return None
+        nm = str(b.nr)
+    except Exception:
+        return None
+    if not (nm.startswith("pow@") and nm.endswith(".re")):
+        return None
+    if not isc(b.ni):
+        if str(b.ni) != nm[:-3] + ".im":
+            return None
+    k = int(nm[4:-3])
+    table = _eng.current().scratch.get("uf:pow", [])
+    if k >= len(table):
+        return None
+    args, res = table[k]
+    base, ex = args
+    if ex.is_const() and ex.is_real() and ex.nr.numerator == 1 and 2 <= ex.nr.denominator <= 4:
+        return base, ex.nr.denominator
+    return None
+
+
 def _syntactically_negative(x: SVal) -> bool:
-    if x.is_const():
-        return x.is_real() and x.nr < 0
-    # -t  or  (-c)*t
-    if x.is_real() and isc(x.dr):
-        t = x.nr
-        if not isc(t) and z3.is_app(t):
-            k = t.decl().kind()
-            if k == z3.Z3_OP_UMINUS:
+    """normal-form heuristic only: z**(-e) == 1/z**e holds for every e (principal powers)"""
+    if not x.is_real():
+        return False
+    t = x.nr
+    if isc(t):
+        return t < 0
+    if z3.is_app(t):
+        k = t.decl().kind()
+        if k == z3.Z3_OP_UMINUS:
+            return True
+        if k == z3.Z3_OP_MUL and t.num_args() >= 1:
+            a0 = t.arg(0)
+            if z3.is_rational_value(a0) and a0.numerator_as_long() < 0:
                 return True
-            if k == z3.Z3_OP_MUL and t.num_args() >= 1:
-                a0 = t.arg(0)
-                if z3.is_rational_value(a0) and a0.numerator_as_long() < 0:
-                    return True
     return False
 
 
